@@ -1280,3 +1280,98 @@ for _f in ("left", "right", "flat", 1):
 for _a in ("right", "left", "both"):
     D("mut:canonize_between", "N.loop N.tree M.mps4", (lambda a: lambda x, H: ((_tg(x, 0), _tg(x, 1)), {"absorb": a}))(_a), "absorb=%r" % (_a,), "dense", why=GAUGE_WHY)
     D("canonize_around", "N.tree M.mps4", (lambda a: lambda x, H: ((_tg(x, 0),), {"absorb": a}))(_a), "c-absorb=%r" % (_a,), "dense", why=GAUGE_WHY)
+
+
+# --------------------------------------------------------------------------- #
+#   round 2 of blind seeded changes                                           #
+#   - isel with the eager 'r' (random vector) selection mixed with int/slice  #
+#     selections on the same tensor (axis bookkeeping after the removed axis) #
+#   - simplifiers with DEFAULT output_inds on OPEN networks holding chains of #
+#     diagonal / antidiagonal / one-hot tensors, presented so that the tensor #
+#     inserted last (visited first) is the outermost one                      #
+# --------------------------------------------------------------------------- #
+
+group("R")
+RWHY = "the random vector of the 'r' selection comes from quimb's global generator, re-seeded before every run of the cell"
+for _lab, _sel in [
+    ("a=r,c=1", {"a": "r", "c": 1}),
+    ("c=r,a=0", {"c": "r", "a": 0}),
+    ("b=r,a=1", {"b": "r", "a": 1}),
+    ("a=r,b=slice", {"a": "r", "b": slice(0, 2)}),
+    ("b=r,c=slice", {"b": "r", "c": slice(1, 2)}),
+    ("b=r,a=1,c=0", {"b": "r", "a": 1, "c": 0}),
+    ("a=r,b=slice,c=1", {"a": "r", "b": slice(1, 3), "c": 1}),
+    ("a=r", {"a": "r"}),
+    ("a='1'", {"a": "1", "b": 1}),
+]:
+    D("isel", "T.abc T.sq T.left", (lambda sel: lambda x, H: ((dict(sel),), {}))(_sel), "r:" + _lab, why=RWHY)
+for _lab, _sel in [
+    ("a=r,x=1", {"a": "r", "x": 1}),
+    ("b=r,x=0,y=1", {"b": "r", "x": 0, "y": 1}),
+    ("c=r,z=1,a=0", {"c": "r", "z": 1, "a": 0}),
+    ("a=r,x=slice", {"a": "r", "x": slice(0, 1)}),
+    ("c=r,b=slice,y=1", {"c": "r", "b": slice(1, 3), "y": 1}),
+]:
+    D("isel", "N.loop", (lambda sel: lambda x, H: ((dict(sel),), {}))(_sel), "r:" + _lab, "dense", why=RWHY + " ('r' only on open labels: an inner label would get one vector per holder, in network order)")
+D("isel", "M.mps4 G.vec", lambda x, H: (({"k1": "r", sorted(x.inner_inds())[0]: 0},), {}), "r:k1=r,bond=0", "dense", why=RWHY)
+D("isel", "P.peps", lambda x, H: (({"k0,1": "r", sorted(x.inner_inds())[0]: 1, "k1,1": 0},), {}), "r:peps", "dense", why=RWHY)
+
+
+def _chain(key, kinds, out_left="a", out_right="e", dtype="complex128", order=None, tail=True):
+    """open chain  a --X0-- m0 --X1-- m1 ... --Z-- e  of structured square
+    tensors (one kind per simplification shortcut) closed by a dense tensor.
+    ``order`` = insertion order (default: INNERMOST first, so the outermost
+    structured tensor has the highest tid and is visited first)."""
+    n = len(kinds)
+    labels = [out_left] + ["m%d" % i for i in range(n)]
+    ts = []
+    for i, kd in enumerate(kinds):
+        ts.append(_T((3, 3), (labels[i], labels[i + 1]), ("X%d" % i,), (key, i), dtype=dtype, kind=kd))
+    if tail:
+        ts.append(_T((3, 4), (labels[n], out_right), ("Z",), (key, "z"), dtype=dtype))
+    if order is None:
+        order = list(range(len(ts) - (1 if tail else 0)))[::-1] + ([len(ts) - 1] if tail else [])
+    return _TN([ts[i] for i in order])
+
+
+@receiver("S.dd")
+def _():
+    # a--D--m0--D--m1--Z--e ; inserted as [X1, X0, Z]: X0 (outermost) visited first
+    return _chain("S.dd", ["diag", "diag"])
+
+
+@receiver("S.dd2")
+def _():
+    # the same chain without the dense tail: two open labels on diagonal tensors
+    return _chain("S.dd2", ["diag", "diag"], tail=False)
+
+
+@receiver("S.aa")
+def _():
+    return _chain("S.aa", ["antidiag", "antidiag"])
+
+
+@receiver("S.da")
+def _():
+    return _chain("S.da", ["diag", "antidiag"])
+
+
+@receiver("S.cc")
+def _():
+    return _chain("S.cc", ["onehot-column", "diag"], dtype="float64")
+
+
+@receiver("S.ddd")
+def _():
+    # three diagonal tensors + tail (4 tensors)
+    return _chain("S.ddd", ["diag", "diag", "diag"])
+
+
+SIMP_WHY = "simplification with DEFAULT output_inds on an open network: open labels and dense value must survive every presentation"
+SCHAINS = "S.dd S.dd2 S.aa S.da S.cc S.ddd"
+for _m in ("diagonal_reduce", "antidiag_gauge", "column_reduce", "rank_simplify", "split_simplify", "loop_simplify", "full_simplify", "compress_simplify"):
+    D(_m, SCHAINS + " N.struct N.loop N.tree", None, "default-output-inds", "value keep-outer", why=SIMP_WHY)
+D("pair_simplify", SCHAINS, None, "default-output-inds", "value keep-outer", why=SIMP_WHY)
+D("full_simplify", SCHAINS, lambda x, H: (("DACR",), {}), "seq-DACR-default-out", "value keep-outer", why=SIMP_WHY)
+D("full_simplify", SCHAINS, lambda x, H: (("ADCRS",), {"output_inds": tuple(sorted(x.outer_inds()))}), "seq-ADCRS-explicit-out", "value keep-outer", why=SIMP_WHY)
+D("q:contract", SCHAINS, lambda x, H: ((), {"output_inds": tuple(sorted(x.outer_inds()))}), "chain-value")
